@@ -80,6 +80,8 @@ struct World {
     nfiles: usize,
     /// I changed my storage since the peer last fetched from me (per repository)
     peer_stale: Vec<std::cell::Cell<bool>>,
+    /// fetches that carried an unloadable bystander object
+    bystanders: std::cell::Cell<u64>,
 }
 
 type Signer = Device<MockSigner>;
@@ -129,6 +131,7 @@ impl World {
             db,
             nfiles: 0,
             peer_stale: (0..NREPOS).map(|_| std::cell::Cell::new(true)).collect(),
+            bystanders: std::cell::Cell::new(0),
         }
     }
 
@@ -228,13 +231,47 @@ impl World {
     /// Fetch the peer's namespace into my storage (pruning) and hand the reference updates to the
     /// worker's `cache_cobs`.
     fn fetch_from_peer(&mut self) -> Result<(), String> {
-        let updates = Self::copy_namespace(self.repo(), self.peer_repo(), self.peer.signer.public_key())?;
+        let mut updates = Self::copy_namespace(self.repo(), self.peer_repo(), self.peer.signer.public_key())?;
         let rid = self.repo().id;
+        // A bystander that cannot be loaded: every fetch also "delivers", ahead of the real updates, an object of
+        // type issue whose reference is named after an id that is not the root of the history it points to (the
+        // worker logs such objects and carries on). The reference exists only while cache_cobs runs, so that no
+        // query ever sees it: the property is about the OTHER objects of the fetch.
+        let ns = *self.peer.signer.public_key();
+        let bystander = {
+            let raw = &self.repos[self.cur].backend;
+            let glob = format!("refs/namespaces/{ns}/refs/cobs/xyz.radicle.issue/*");
+            let tip = raw.references_glob(&glob).ok().and_then(|mut it| it.next()).and_then(|r| r.ok()).and_then(|r| r.target());
+            let fake = raw.refname_to_id(&format!("refs/namespaces/{ns}/refs/rad/id")).ok().or_else(|| raw.head().ok().and_then(|h| h.target()));
+            match (tip, fake) {
+                (Some(tip), Some(fake)) if tip != fake => {
+                    let name = format!("refs/namespaces/{ns}/refs/cobs/xyz.radicle.issue/{fake}");
+                    raw.reference(&name, tip, true, "verif bystander").ok().map(|_| (name, tip))
+                }
+                _ => None,
+            }
+        };
+        if let Some((name, tip)) = &bystander {
+            if let Ok(n) = radicle::git::RefString::try_from(name.as_str()) {
+                updates.insert(0, RefUpdate::from(n, git2::Oid::zero(), *tip));
+                self.bystanders.set(self.bystanders.get() + 1);
+            }
+        }
         let db = &mut self.db;
         let repo: &Repository = &self.repos[self.cur];
-        guard(|| radicle_node::worker::fetch::verif_cache_cobs(&rid, &updates, repo, db))
-            .map_err(|p| format!("panic in cache_cobs: {p}"))?
-            .map_err(|e| format!("cache_cobs: {e}"))
+        let res = guard(|| radicle_node::worker::fetch::verif_cache_cobs(&rid, &updates, repo, db));
+        if let Some((name, _)) = &bystander {
+            if let Ok(mut r) = self.repos[self.cur].backend.find_reference(name) {
+                r.delete().ok();
+            }
+        }
+        match res.map_err(|p| format!("panic in cache_cobs: {p}"))? {
+            Ok(()) => Ok(()),
+            // with the bystander in the fetch an error of the worker's caching step is what the real node logs and
+            // survives (the references are applied already): the queries below judge what it left in the cache
+            Err(_) if bystander.is_some() => Ok(()),
+            Err(e) => Err(format!("cache_cobs: {e}")),
+        }
     }
 }
 
